@@ -218,6 +218,13 @@ func (e *vCtlEnv) mirrorCheck() {
 	e.mirror = vReplayEventsL(e.mirror, e.drainSent(), "C02/published-wellformed")
 	zzverif.Assert(vSameContent(e.mirror, content), "C02/published-exactly")
 	zzverif.Assert(vSameContent(e.mirror, content), "C03/events-account")
+	// C05: whatever version of an object the subscriber has learnt from the events it
+	// received, a cache read never returns an older one (e.g. after a stale relist)
+	for _, m := range e.mirror {
+		if c, present := vFind(content, m); present {
+			zzverif.Assert(c.ver >= m.ver, "C05/cache-never-older-than-received")
+		}
+	}
 }
 
 func VerifC03_Controller() {
